@@ -518,6 +518,15 @@ func (w *c13World) script(sb *submitter, c *rtCall) *served {
 		if o.RA != "" {
 			o.Header.Set("Retry-After", o.RA)
 		}
+		switch form {
+		case "1", "30", "1000", "int", "2^31":
+			if t.Chance(1, 8) {
+				// the field twice, the larger value first (a front end that adds its own line behind the log's): whichever
+				// line a client goes by, the server has asked for the larger one too
+				o.Header.Add("Retry-After", []string{"0", "0", time.Now().Add(-time.Hour).UTC().Format(http.TimeFormat)}[t.Intn(3)])
+				w.s.Probe("c13.retry-after-twice")
+			}
+		}
 	case "other":
 		o.Status = c13Other[t.Intn(len(c13Other))]
 		o.Body = []byte(fmt.Sprintf("refused %d by %s#%d", o.Status, sb.Party, c.Idx))
